@@ -45,6 +45,11 @@ SOURCES = [
     "def f(:\n    pass\n",
     "x = (1,\n",
     "lambda_handler = lambda event, context: {'statusCode': 200, 'body': 'ok', 'other': 'ok', 'third': 'ok'}\n",
+    # exports names that OTHER sources of this pool use as ordinary renameable globals / locals: state leaking from one call
+    # into the next (a cache of __all__ names, of preserved names, of hoisted values) shows in a later call on those sources
+    "__all__ = ['handler', 'value_one', 'alpha_name', 'outer_function', 'Thing', 'use_them', 'other_function', 'function_name', 'first_local', 'keep_local']\n"
+    "def handler(): pass\nvalue_one = alpha_name = 1\ndef outer_function(): pass\nclass Thing: pass\ndef use_them(): pass\ndef other_function(): pass\ndef function_name(first_local, keep_local): return first_local, keep_local\n",
+    "def public_name(argument_one):\n    return argument_one, argument_one\ndef other_function(public_name_again):\n    return public_name(public_name_again), public_name(public_name_again)\nvalue_two = other_function(1)\nprint(value_two, value_two)\n",
 ]
 BYTES_SOURCES = [b"# -*- coding: latin-1 -*-\nname_value = '\xe9\xe8'\nprint(name_value, name_value)\n", SOURCES[0].encode(), SOURCES[6].encode()]
 
@@ -103,7 +108,7 @@ def exec_step(state, step):
     import ast
     rule_ = step['rule']
     i = step['i']
-    src = SOURCES[i]
+    src = SOURCES[i] if i >= 0 else step['source']
     if rule_ == 'minify':
         opts = step['opts']
         if step['use_bytes']:
@@ -183,6 +188,17 @@ def make_machine():
         def call_minify(self, i, opts, share_pl, share_pg, pl, pg, share_rao, use_bytes):
             self.do({'rule': 'minify', 'i': i, 'opts': opts, 'share_pl': share_pl, 'share_pg': share_pg, 'pl': pl, 'pg': pg,
                      'share_rao': share_rao, 'use_bytes': use_bytes})
+
+        @rule(prog=progs.programs(profile='shape', level=(3, 12), size=6), opts=api.option_sets(), exports=st.lists(st.sampled_from(progs.LONG_NAMES + ['A', 'B', 'x']), max_size=3),
+              share_pg=st.booleans())
+        def call_minify_generated(self, prog, opts, exports, share_pg):
+            # generated programs share one small name pool, so names remembered from an earlier call would bite in a later one
+            src = prog.source
+            if exports:
+                src = '__all__ = %r\n' % (exports,) + src
+                if api.compiles(src) is not None:
+                    src = prog.source
+            self.do({'rule': 'minify', 'i': -1, 'source': src, 'opts': opts, 'share_pl': False, 'share_pg': share_pg, 'pl': [], 'pg': [], 'share_rao': False, 'use_bytes': False})
 
         @rule(i=st.integers(0, len(SOURCES) - 1))
         def call_defaults(self, i):
